@@ -167,9 +167,10 @@ func (p *provider) CreateScope(ctx context.Context) (Scope, error) {
 	}
 
 	// Track scope
-	p.scopesMu.Lock()
-	p.scopes[s] = struct{}{}
-	p.scopesMu.Unlock()
+	if !p.trackScope(s) {
+		_ = s.Close()
+		return nil, ErrProviderDisposed
+	}
 
 	// Auto-close on context cancellation
 	go func() {
@@ -182,6 +183,21 @@ func (p *provider) CreateScope(ctx context.Context) (Scope, error) {
 	}()
 
 	return s, nil
+}
+
+// trackScope registers a scope for cleanup when the provider is closed. It
+// returns false if the provider has been closed in the meantime, in which case
+// the caller must dispose the scope itself.
+func (p *provider) trackScope(s *scope) bool {
+	p.scopesMu.Lock()
+	defer p.scopesMu.Unlock()
+
+	if p.scopes == nil {
+		return false
+	}
+
+	p.scopes[s] = struct{}{}
+	return true
 }
 
 // Close disposes the provider and all its resources
